@@ -37,6 +37,12 @@ class PeerWorld(World):
             segment_size_mru=prm['seg_mru'], segment_size_tx_initial=prm['tx_init'],
             modulate_target_ack_time=prm['modulate'],
         )
+        if prm.get('config_text') is not None:
+            # the way the daemon gets its settings: defaults, then the configuration file
+            import io
+            cfg = ns.config.Config(tls_enable=False, node_id='dtn://r/', segment_size_mru=prm['seg_mru'], segment_size_tx_initial=prm['tx_init'])
+            cfg.from_file(io.StringIO(prm['config_text']))
+        self.cfg = cfg
         cfg._bus_conn = proc.bus
         hdl_kwargs = dict(config=cfg, sock=conn.ends[self.ridx])
         if prm['role'] == 'passive':
